@@ -120,6 +120,7 @@ class Fault:
         self.prefix = None  # the process directory the plan applies to, e.g. "/proc/77"
         self.pid = None
         self.fired = []
+        self.keep_dir = False  # vanish: the process directory itself still answers stat() (the tear-down window of a dying task)
 
 
 class Kernel:
@@ -180,6 +181,8 @@ class Kernel:
                 f.fired.append(("deny", i, kind, path))
                 raise oserr(f.deny_errno, path)
             if f.vanish_at is not None and bool(f.vanish_at <= i):
+                if f.keep_dir and path == f.prefix:
+                    return         # the /proc/<pid> directory itself lingers while everything inside it is gone
                 f.fired.append(("vanish", i, kind, path))
                 raise oserr(errno.ESRCH if kind in ("read", "syscall") else errno.ENOENT, path)
         else:
